@@ -361,10 +361,33 @@ func (fc *funcContract) addClause(kw, rest string, line int) error {
 		}
 	case "loop":
 		// loop k (hint) invariant expr | unroll N | decreases expr
-		m := regexp.MustCompile(`^(\d+)\s*(\(([^)]*)\))?\s*(invariant|unroll|decreases|ghost|step|use|inbody)\s*(.*)$`).FindStringSubmatch(rest)
+		// loop k (hint) kind body ; the hint may contain balanced parentheses
+		hint := ""
+		if m0 := regexp.MustCompile(`^(\d+)\s*\(`).FindString(rest); m0 != "" {
+			d := 0
+			end := -1
+			for i := len(m0) - 1; i < len(rest); i++ {
+				if rest[i] == '(' {
+					d++
+				} else if rest[i] == ')' {
+					d--
+					if d == 0 {
+						end = i
+						break
+					}
+				}
+			}
+			if end < 0 {
+				return fmt.Errorf("unbalanced hint in loop clause: %s", rest)
+			}
+			hint = rest[len(m0):end]
+			rest = strings.TrimSpace(m0[:len(m0)-1]) + " " + rest[end+1:]
+		}
+		m := regexp.MustCompile(`^(\d+)\s*()()(invariant|unroll|decreases|ghost|step|use|inbody)\s*(.*)$`).FindStringSubmatch(rest)
 		if m == nil {
 			return fmt.Errorf("bad loop clause: %s", rest)
 		}
+		m[3] = hint
 		k, _ := strconv.Atoi(m[1])
 		if fc.loops == nil {
 			fc.loops = map[int]*loopSpec{}
